@@ -13,7 +13,7 @@ from .smt import solve_all
 from .source import SourceIndex
 from .verify import verify_function
 
-CONTRACT_MODULES = ["contracts.evaluation", "contracts.constraints", "contracts.parser_state", "contracts.parser_cache", "contracts.tree_value", "contracts.tree", "contracts.printer", "contracts.search_loop", "contracts.io_buffer", "contracts.fuzz"]
+CONTRACT_MODULES = ["contracts.evaluation", "contracts.constraints", "contracts.parser_state", "contracts.parser_cache", "contracts.tree_value", "contracts.tree", "contracts.printer", "contracts.search_loop", "contracts.io_buffer", "contracts.fuzz", "contracts.search"]
 
 
 def load_contracts(mods=None):
